@@ -24,6 +24,10 @@ func runC03(c *Ctx) {
 	ruleBulkFrame(c, "R03.f")
 	ruleNoRetryAfterParseError(c, "R03.f")
 	ruleSerializerTotal(c, "R03.g")
+	// a panic below the dispatcher is swallowed by the connection barrier: the request gets no
+	// reply and the requests pipelined behind it are dropped with the connection
+	ruleArgumentIndexSafety(c, "R03.h")
+	ruleNilNilDeref(c, "R03.h")
 }
 
 // ruleLoopProgress: A4 over all loops of the framework packages and the example store.
@@ -67,6 +71,9 @@ func ruleLoopProgress(c *Ctx, rid string) {
 				c.ok(rid, key, pos, strings.Join(v.Progress, "; "))
 			} else {
 				c.bad(rid, key, pos, v.Reason, v.Witness...)
+			}
+			if applies, okB, why := c.P.clientBoundedLoopVerdict(fn, l); applies {
+				c.check(okB, rid, key+"/client-bound", pos, why, why)
 			}
 		}
 	}
